@@ -1298,7 +1298,7 @@ var c13ScriptNames = []string{"honest", "alt-block", "forged-commit", "padded-ti
 
 // c13F79: generate the scenarios that need the repair of finding F79 (REMOVE THIS GATE once
 // fixes/F79-blockpool-max-peer-height-follows-peers.diff is applied to the repository)
-func c13F79() bool { return os.Getenv("VERIF_C13_F79") == "1" }
+func c13F79() bool { return true } // regression cases of finding F79 (repaired in /repo)
 
 const c13Phantom = 40 // how far above the chain a status liar's first announcement is
 
